@@ -155,6 +155,7 @@ def run_config(res, pid, tier, seed, config, binp, info, workdir, extra_cases=No
     else:
         extra = [f"--cpu={cpu}"] if cpu else []
         reals, crashed = hh.run_real(binp, cases, workdir, tag, extra_args=extra)
+        binp_for_shrink[tag] = (binp, extra)
     if skip_model:
         models, mbad = list(reals), []      # search mode: only the property's own oracles are evaluated
     elif cached:
@@ -167,6 +168,7 @@ def run_config(res, pid, tier, seed, config, binp, info, workdir, extra_cases=No
 
 
 MODEL_CACHE = {}
+binp_for_shrink = {}
 
 
 def evaluate(res, pid, config, cpu, cfgline, bs, cases, reals, models, crashed, mbad, info, workdir, tag, r):
@@ -196,9 +198,18 @@ def evaluate(res, pid, config, cpu, cfgline, bs, cases, reals, models, crashed, 
         oracle_fails += post(bs, cases, reals, info)
     st["oracle_fail"] = len(oracle_fails)
     st["corr_fail"] = len(corr_fails)
-    for k, msg in oracle_fails[:3]:
-        res.replay(dict(kind="impl-violates-property", config=config, cpu=cpu, cfg=cfgline, message=msg,
-                        ops=cases[k].ops, actual=reals[k], model=models[k]))
+    for n_rep, (k, msg) in enumerate(oracle_fails[:3]):
+        rep = dict(kind="impl-violates-property", config=config, cpu=cpu, cfg=cfgline, message=msg,
+                   ops=cases[k].ops, actual=reals[k], model=models[k])
+        # minimise the first failing history on the native runner (greedy op deletion)
+        if n_rep == 0 and binp_for_shrink.get(tag) and cases[k].cons:
+            try:
+                sh = hh.shrink_oracle_failure(binp_for_shrink[tag][0], cases[k], workdir, extra_args=binp_for_shrink[tag][1])
+                if sh and len(sh[0]) < len(cases[k].ops):
+                    rep["minimised_ops"], rep["minimised_actual"], rep["minimised_message"] = sh
+            except Exception as e:      # shrinking is best effort
+                rep["shrink_error"] = str(e)[:200]
+        res.replay(rep)
     res.corr_pending += [dict(kind="correspondence-broken", stream=f"corr:{pid}/{cases[k].name}", config=config, cpu=cpu,
                               cfg=cfgline, first_diff_op=cases[k].ops[d] if d < len(cases[k].ops) else None,
                               ops=cases[k].ops[:d + 1], actual=(reals[k] or [])[:d + 1], model=(models[k] or [])[:d + 1])
